@@ -20,7 +20,25 @@ def prepare(runner, work):
     for name in tables.SHIPPED:
         sets[name] = tables.shipped(name) + ("-", "-")
     sets["loc"] = tables.shipped("cur") + (os.path.join(tables.REPO, "Test/local_table_b"), os.path.join(tables.REPO, "Test/local_table_d"))
+    # a local Table D whose entries are themselves ill-formed (C10: rejected, never expanded wrongly)
+    bad = os.path.join(work, "bad_local_d")
+    with open(bad, "w") as f:
+        f.write("* ill-formed local Table D entries for C10\n")
+        for d, ms in BAD_D.items():
+            f.write("%06d %s\n" % (d, " ".join("%06d" % m for m in ms)))
+    sets["bad"] = tables.shipped("cur") + ("-", bad)
     P = tables.setup_tables(runner, sets)
+
+BAD_D = {
+    363101: [101000, 12101],                 # delayed replication without its class 31 factor
+    363102: [12101, 101000],                 # ... as the last descriptor
+    363103: [102001, 12101],                 # span running past the end of the sequence
+    363104: [7004, 363101, 12101],           # referenced from another sequence
+    363105: [12101, 363102, 7004],
+    363106: [103000, 31001, 12101],          # delayed span past the end
+    363107: [101002, 363103],
+    363108: [12101, 63999],                  # unknown element inside
+}
 
 FACTOR_SETS = ["2 1 0 3", "0", "1", "3 0 2", "1 2"]
 
@@ -39,6 +57,15 @@ def scenarios(rng, tier, runner):
         for d in sorted(D):
             out.append(Scenario("tabled-%s-%06d" % (name, d), ["T.use " + name, "tm.new 4 %06d" % d] + expand_ops(3, rng),
                                 {"tables": name, "template": [d]}))
+    # templates that reach the ill-formed local sequences directly, nested, inside replications
+    B, D = P["bad"]
+    k = 0
+    for d in sorted(BAD_D):
+        for t in ([d], [12101, d], [d, 7004], [101002, d], [101000, 31001, d], [102000, 31001, 12101, d], [107002, 12101, d][:3] + [d]):
+            for ed in (3, 4):
+                out.append(Scenario("badd-%d" % k, ["T.use bad", "tm.new %d %s" % (ed, " ".join("%06d" % x for x in t))] +
+                                    expand_ops(2, rng), {"tables": "bad", "template": t}))
+                k += 1
     n = 1500 if tier == "quick" else 20000
     for i in range(n):
         name = rng.choice(["cur", "loc", "v13", "v35"])
